@@ -432,7 +432,15 @@ m("C15", "proof",
   "C15_finished_matches_pdu) and the originating-id rule (C15_originating_id). Causal order at the sender "
   "for EVERY call sequence (C15_source_order, generated invariant OrdOk over every method): every EOF-Sent and "
   "Transaction-Finished indication is for the transaction opened by the latest Transaction indication and not "
-  "yet finished (C15_source_order_meaning, C15_source_finished_has_tid). The receiver's order (nothing after "
-  "Transaction-Finished within a transaction) is checked by the oracle on the traces, not proved.",
+  "yet finished (C15_source_order_meaning, C15_source_finished_has_tid). Causal order at the RECEIVER for every "
+  "state, input and history (C15_dest_call_in_order, C15_dest_other_calls_in_order, "
+  "C15_dest_order_all_histories; Lemmas/IndPhase*.lean + generated InvDestPhaseN/C): what a call adds to the "
+  "log is Metadata-Recv / File-Segment-Recv / EOF-Recv indications followed by Transaction-Finished ones, never "
+  "the reverse; a call that issues Transaction-Finished leaves the handler in the completion phase "
+  "(TRANSFER_COMPLETION, SENDING_FINISHED_PDU, WAITING_FOR_FINISHED_ACK) or idle; from that phase every call, "
+  "whatever arrives, issues nothing but (further) Transaction-Finished indications and stays in the phase until "
+  "idle - within a transaction nothing follows Transaction-Finished but Transaction-Finished (a second one is "
+  "issued when the positive ACK limit fault cancels the already completed transaction: model and code agree).",
   "Lean 4 whole-FSM invariants (generated Preserves lemmas) + differential correspondence", "§6 C15",
-  ["receiver-side causal order: oracle only"])
+  ["the relative order of Metadata-Recv, File-Segment-Recv and EOF-Recv follows the arrival order of the PDUs "
+   "(a link may reorder them): no order among them is claimed or checked"])
